@@ -94,19 +94,24 @@ while True:
     run(1, 2)
     blink()
 """,
+    # names that are suffixes / prefixes of each other (label searches by endswith / startswith);
+    # no '_' inside (component collisions under remove_labels are a recorded C05 finding) and no
+    # call in tail position after other calls (recorded tail-call finding)
     "suffix_names": HDR + """
 def report(v):
     db.Setting = v
 
-def pre_update(v):
+def preupdate(v):
     if v > 100:
         return
     report(v + 10)
+    db.On = v
 
 def update(v):
-    pre_update(v)
+    preupdate(v)
     report(v + 20)
     report(v + 30)
+    db.Mode = v
 
 update(d0.Setting)
 update(2)
@@ -137,18 +142,20 @@ show(7)
 def run(v):
     db.Setting = v
 
-def run_all(v):
+def runall(v):
     run(v)
     run(v + 1)
+    db.Mode = v
 
-def run_all_twice(v):
-    run_all(v)
-    run_all(v + 5)
+def runalltwice(v):
+    runall(v)
+    runall(v + 5)
+    db.On = v
 
-run_all_twice(d0.Setting)
-run_all(1)
+runalltwice(d0.Setting)
+runall(1)
 run(2)
-run_all_twice(9)
+runalltwice(9)
 """,
 }
 
